@@ -19,12 +19,16 @@ Definition run_validate (args : list tok) : list byte :=
 
 Inductive op :=
   | OAdd (c : canonical) | OSetPayload (d : list byte) | OSetPayloadBlock (c : canonical)
-  | OSetCrc (code : N) | OUpdate (node : eid) (residence : N) | OSort | OQuery | OLifeNs (n : N).
+  | OSetCrc (code : N) | OUpdate (node : eid) (residence : N) | OSort | OQuery | OLifeNs (n : N)
+  | OBuild (payload : option (list byte)).
 
 Definition parse_op : P op := fun ts =>
   match ts with
   | t :: r =>
     if tok_is t "ADD" then (let* c := parse_canonical in pret (OAdd c)) r
+    else if tok_is t "ADDC" then (let* c := parse_canonical in pret (OAdd c)) r      (* implementation side: the block is made by its constructor *)
+    else if tok_is t "BUILD" then Some (OBuild None, r)
+    else if tok_is t "BUILDP" then (let* d := pBytes in pret (OBuild (Some d))) r
     else if tok_is t "SETPAYLOAD" then (let* d := pBytes in pret (OSetPayload d)) r
     else if tok_is t "SETPB" then (let* c := parse_canonical in pret (OSetPayloadBlock c)) r
     else if tok_is t "SETCRC" then (let* k := pN in pret (OSetCrc k)) r
@@ -84,6 +88,11 @@ Definition step (upd : upd_fn) (m : ovf_mode) (clock : N) (b : bundle) (o : op) 
   | OSetPayloadBlock c => Ok (S_ "-", set_payload_block b c)
   | OSetCrc k => Ok (S_ "-", set_crc b k)
   | OSort => Ok (S_ "-", sort_canonicals b)
+  (* BundleBuilder::new().primary(p).canonicals(cs)[.payload(d)].build() *)
+  | OBuild pl => match bundle_builder_build (Some (b_primary b)) (Some (b_canonicals b)) pl with
+                 | Some b' => Ok (S_ "OK", b')
+                 | None => Ok (S_ "ERR", b)
+                 end
   | OUpdate e n => do rb <- upd m clock e n b; Ok (show_bool (fst rb), snd rb)
   | OQuery => do q <- query m clock b; Ok (q, b)
   (* the lifetime Duration gets a sub-millisecond part: the model counts whole milliseconds (as_millis), nothing changes *)
